@@ -144,6 +144,32 @@ def r07_4(ctx: Ctx) -> None:
            "rule files are read in the fixed strictness order (superiors must be defined before their inferiors)", form="")
 
 
+def r07_6(ctx: Ctx) -> None:
+    """ edge genes of a core: the within-location lookup returns genes in the location's own (cyclic) order - for a
+        core spanning the origin the pre-origin genes come first - so the first/last element are the core's edge genes.
+        Re-sorting that list puts post-origin genes first and swaps the edges. """
+    count = 0
+    for qual in ("apply_extenders", "remove_redundant_protoclusters.get_first_and_last", "remove_redundant_protoclusters"):
+        func = ctx.fn(CP, qual)
+        indexed = {}
+        for node in walk_local(func):
+            if isinstance(node, ast.Subscript) and isinstance(node.value, ast.Name) and isinstance(node.ctx, ast.Load) \
+                    and txt(node.slice) in ("0", "-1"):
+                indexed.setdefault(node.value.id, node)
+        for name, node in sorted(indexed.items()):
+            srcs = [v for v in bound_from(func, name) if "get_cds_features_within_location" in txt(v)]
+            if not srcs:
+                continue
+            count += 1
+            direct = all(isinstance(v, ast.Call) and last_attr(v) == "get_cds_features_within_location" for v in srcs)
+            ctx.ob("R07.6", CP, node, qual, f"edge genes from {name}", direct,
+                   "the first/last gene of a core are taken from the lookup result in its own cyclic order, not from a "
+                   "re-sorted copy (sorting puts the post-origin genes of an origin-spanning core first)",
+                   detail="" if direct else f"`{name}` = {txt(srcs[0])[:80]}", form=f"{name} = {txt(srcs[0])[:80]}")
+    if count < 2:
+        raise AnalysisError(f"expected at least 2 edge-gene uses of the within-location lookup, found {count}")
+
+
 def run(ctx: Ctx) -> None:
     ctx.rule("R07.1", "loop-carried definition rule on the per-rule evaluation in apply_cluster_rules", floor=5)
     ctx.rule("R07.2", "rule-loop outputs are partitioned by rule name; per-rule working state is rebuilt", floor=6)
@@ -154,6 +180,8 @@ def run(ctx: Ctx) -> None:
     r07_2(ctx)
     r07_3(ctx)
     r07_4(ctx)
+    ctx.rule("R07.6", "edge genes of a core come from the lookup in its own cyclic order", floor=2)
+    r07_6(ctx)
     # R07.5 = R03.5 recorded under this property
     before = len(ctx.obs)
     c03.r03_5(ctx)
